@@ -290,6 +290,83 @@ def edge_recipes(rng, n):
     return out
 
 
+PATH_PARTS = ["sauces", "mom's \"special\" sauce", "tomato", "a b", "crème", "名前", "it's", "x\ty", "say \"hi\"", "q\"",
+              "..", "", "salsa verde", "50% off", "back\\\\slash", "tab\there", "dough", "weird\u0001ctl", "\u007f", "é\"é"]
+
+
+def ref_recipes(rng, n):
+    """ingredients that reference another recipe by relative path (`@./dir/name{}`, `@../x/y{}`,
+    `@.\\dir\\name{}`) or by the recipe modifier (`@@name{}`), with path components that JSON has to escape
+    (double quote, backslash, control characters) or not (spaces, single quotes, non-ASCII)"""
+    fixed = ["@./sauces/mom's \"special\" sauce{1%cup}\n",
+             "@./sauces/tomato{1%cup} and @../x/y{} and @@pesto{2%tbsp} and @@./deep/er/pesto{}\n",
+             "@./a\tb/c\td{2} then @&./a\tb/c\td{1}\n",
+             "@.\\\\win\\\\style{1} @..\\\\up\\\\one{}\n",
+             "@./\"{}\n", "@./\"/\"{}\n", "@../{}\n", "@.//{}\n", "@./a//b{}\n",
+             "Mix @./crème/brûlée \"maison\"{3} in #./not/a/ref{}.\n"]
+    out = list(fixed)
+    for _ in range(n):
+        items = []
+        for _ in range(rng.randint(1, 4)):
+            parts = [rng.choice(PATH_PARTS) for _ in range(rng.randint(1, 3))]
+            sep = "/" if rng.random() < 0.85 else "\\\\"
+            head = rng.choice(["./", "../", "./", ".\\\\" if sep != "/" else "./"])
+            mods = rng.choice(["", "", "@", "?", "@-", "&"])
+            q = rng.choice(["", "1%cup", "2", "1/2%l", "250%g", "a bit"])
+            items.append("@%s%s%s{%s}" % (mods, head, sep.join(parts), q))
+        if rng.random() < 0.3:
+            items.append("@@%s{%s}" % (rng.choice(["pesto", "mom's \"best\"", "a b c"]), rng.choice(["", "1%cup"])))
+        out.append("Combine " + " and ".join(items) + ".\n")
+    return out
+
+
+def mode_recipes(rng, n):
+    """`>> [mode]` / `[define]` / `[duplicate]` blocks (Extensions::MODES): components declared up front
+    (defined_in_step = false), steps mode (everything is a reference), text mode, duplicates as references"""
+    fixed = [
+        ">> [mode]: components\n@flour{500%g}\n@water{300%ml}\n#bowl{}\n>> [mode]: default\nMix @&flour{100%g} and @&water{} in #&bowl.\n",
+        ">> [define]: ingredients\n@salt{1%tsp}\n@igr\n\n>> [define]: steps\nAdd @salt and @igr{}. ~{5%min}\n",
+        ">> [define]: components\n@a{1%kg}\n#pan{2}\n>> [define]: all\n@b{2%g} with @&a{} in #&pan.\n",
+        ">> [duplicate]: reference\n@flour{200%g} then more @flour{50%g} and @sugar{1%tbsp}, @sugar.\n\n#pot{} and again #pot.\n",
+        ">> [duplicate]: ref\n@x{1}\n\n>> [duplicate]: new\n@x{2} @x{3}\n",
+        ">> [mode]: text\nThis @is{not} a #component ~{1%min}.\n\n>> [mode]: default\nBut @this{1%g} is.\n",
+        ">> [mode]: components\n@only{1%l}\n#declared{}\n",
+        ">> [mode]: components\n@./sauces/base \"x\"{1%cup}\n>> [mode]: steps\nUse @./sauces/base \"x\"{}.\n",
+        ">> [mode]: components\n@stock{3-2%l}\n@eggs{3}\n@salt{a pinch}\n>> [mode]: all\nBoil @&stock{1%l} with @&eggs{1}. ~{10%min}\n",
+    ]
+    out = list(fixed)
+    names = ["flour", "water", "salt", "eggs", "oil", "olive oil", "brown sugar"]
+    cws = ["bowl", "pan", "large pot"]
+    for _ in range(n):
+        blocks = []
+        decl = rng.sample(names, rng.randint(1, 4))
+        dcw = rng.sample(cws, rng.randint(0, 2))
+        blocks.append(">> [%s]: %s" % (rng.choice(["mode", "define"]), rng.choice(["components", "ingredients"])))
+        for nm in decl:
+            blocks.append("@%s{%s}" % (nm, rng.choice(["", "500%g", "2", "1/2%cup", "1-2%tbsp", "some", "=3%l"])))
+        for nm in dcw:
+            blocks.append("#%s{%s}" % (nm, rng.choice(["", "2", "big"])))
+        after = rng.choice(["default", "all", "steps", "text"])
+        blocks.append(">> [%s]: %s" % (rng.choice(["mode", "define"]), after))
+        if rng.random() < 0.4:
+            blocks.append(">> [duplicate]: %s" % rng.choice(["reference", "ref", "new", "default"]))
+        steps = []
+        for _ in range(rng.randint(1, 3)):
+            nm = rng.choice(decl + [rng.choice(names)])
+            amp = rng.choice(["&", "", ""])
+            st = "Add @%s%s{%s}" % (amp, nm, rng.choice(["", "", "100%g", "1"]))
+            if dcw and rng.random() < 0.6:
+                st += " to the #%s%s{}" % (rng.choice(["&", ""]), rng.choice(dcw))
+            if rng.random() < 0.3:
+                st += " for ~{%d%%min}" % rng.choice([5, 20])
+            steps.append(st + ".")
+        blocks.append("\n\n".join(steps))
+        if rng.random() < 0.3:
+            blocks.append(">> [mode]: text\n\nJust @words{} here.\n\n>> [mode]: default\n\nAnd @pepper{1%tsp}.")
+        out.append("\n".join(blocks) + "\n")
+    return out
+
+
 def modifier_recipes():
     """every subset of the five modifier characters on an ingredient and on cookware"""
     out = []
@@ -310,6 +387,10 @@ def gen_recipes(rng, n):
         out.append((text, ALL_EXT, "sparse"))
     for text in edge_recipes(rng, max(40, n // 10)):
         out.append((text, ALL_EXT, "edge"))
+    for text in ref_recipes(rng, max(50, n // 10)):
+        out.append((text, ALL_EXT, "recipe-ref"))
+    for text in mode_recipes(rng, max(50, n // 10)):
+        out.append((text, ALL_EXT, "modes"))
     for text in amount_recipes(rng, max(40, n // 8)):
         out.append((text, ALL_EXT, "amounts"))
     for text in inter_ref_recipes(rng, max(60, n // 8)):
@@ -495,6 +576,19 @@ def stats_of(dump, c):
             c["scaled_outcome_list_empty"] += 1
         elif x == "reference" and t[i + 1] == "s":
             c["recipe_reference"] += 1
+            # R2 name S.. components Lk S..*
+            try:
+                k = int(t[i + 6][1:])
+                strs = [t[i + 4]] + t[i + 7:i + 7 + k]
+                raw = b"".join(bytes.fromhex(x[2:]) for x in strs)
+                if any(b < 0x20 or b in (0x22, 0x5c) for b in raw):
+                    c["recipe_reference_needing_json_escape"] += 1
+                if any(b >= 0x80 for b in raw):
+                    c["recipe_reference_non_ascii"] += 1
+            except (ValueError, IndexError):
+                pass
+        elif x == "defined_in_step":
+            c["defined_in_step_" + ("true" if t[i + 1] == "B1" else "false")] += 1
         elif x.startswith("F") and x[1:].isdigit():
             c["flags:" + "|".join(t[i + 1:i + 1 + int(x[1:])])] += 1
         elif x[:2] in ("yn", "yb", "yN", "yS", "yL", "yM", "yT"):
